@@ -145,7 +145,45 @@ def check(ctx):
               Fg.assigns("n") == ["(sequence_number)%(len(levels))"] and Fg.assigns("sequence_number") == ["(sequence_number)//(len(levels))"], R, gp, "preamble unranking",
               "the preamble index is unranked with the radices the count multiplied (same factors, same level lists)", "preamble unranking changed")
 
+    # ---- one index per combination, or one per trial: the three places that make this choice agree, and make it on the
+    # number of *distinct* combinations of an unweighted crossing
+    R = "C06.dispatch"
+    sites = {"random:UCSolutionEnumerator.__count_solutions": "first_n", "random:UCSolutionEnumerator.random_components": "trial_count",
+             "random:UCSolutionEnumerator.generate_trial_values": "trial_count"}
+    forms = {}
+    for ref, var in sites.items():
+        h = ctx.fn(ref)
+        ts = [x.test for x in statements(h.node) if isinstance(x, ast.If) and "_crossing_instances" in ast.unparse(x.test) or
+              (isinstance(x, ast.If) and "crossing_size" in ast.unparse(x.test) and var in ast.unparse(x.test))]
+        ts = [t for t in ts if var in [n.id for n in ast.walk(t) if isinstance(n, ast.Name)]]
+        ctx.require(len(ts) == 1, "%s: the per-combination / per-trial test was not found" % h.fq)
+        forms[ref] = ast.unparse(ts[0]).replace(var, "N")
+        want_t = "N == len(self._crossing_instances) and self._crossing_is_unweighted"
+        ctx.check(forms[ref] == want_t, R, h, "per-combination test: %s" % forms[ref], "one source-combination index per crossing combination exactly when the segment holds every distinct combination of an unweighted crossing once",
+                  "%s decides between one index per combination and one per trial by `%s` (expected `%s`): the counted space and the drawn / decoded components no longer describe the same candidates" % (
+                      h.qual, forms[ref], want_t), ts[0])
+    ctx.check(len(set(forms.values())) == 1, R, ctx.fn("random:UCSolutionEnumerator.__count_solutions"), "siblings agree", "counting, drawing and decoding take the same branch",
+              "counting, drawing and decoding decide differently: %s" % forms)
+    scp = ctx.fn("random:UCSolutionEnumerator.sum_combination_products")
+    ts = [x for x in statements(scp.node) if isinstance(x, ast.If) and "shapes[0]" in ast.unparse(x.test)]
+    ctx.require(len(ts) == 1, "sum_combination_products: shortcut test not found")
+    t = ast.unparse(ts[0].test)
+    ret = [ast.unparse(x.value) for x in ts[0].body if isinstance(x, ast.Return)]
+    ctx.check(t == "all([s == shapes[0] for s in shapes]) and uniform_m" and ret == ["solution_count * pow(shapes[0], first_n)"], R, scp, "closed form only for the uniform case",
+              "the product shortcut is taken only when every combination has the same number of completions AND every combination has the same number of copies",
+              "sum_combination_products takes the closed form under `%s` returning %s: with unequal completions per combination the count must be summed over the arrangements" % (t, ret), ts[0])
+    um = [ast.unparse(x) for x in statements(scp.node) if isinstance(x, ast.If) and "uniform_m" in ast.unparse(x)]
+    ctx.check(any("isinstance(m_or_counters, int)" in u and "all([m == m_or_counters[0] for m in m_or_counters])" in u for u in um), R, scp, "uniform copies",
+              "uniform copies: a single m, or a counter list whose entries are all equal", "the uniform-copies test of sum_combination_products changed")
+    body = ast.unparse(scp.node)
+    ctx.check("for i in range(0, solution_count):" in body and "prod *= shapes[p]" in body and "s += prod" in body and
+              "compute_jth_prefix_of_permutations_with_copies(crossing_size, m_or_counters, first_n, i, pmemo)" in body, R, scp, "general case sums over arrangements",
+              "otherwise the count is the sum over all arrangements of the product of their completions", "the general case of sum_combination_products changed")
+
     mod = sys.modules[__name__]
+    control(ctx, mod, "closed form whenever the copies are uniform",
+            lambda s: variants.in_function(s, "sweetpea/_internal/sampling_strategy/random.py", "UCSolutionEnumerator.sum_combination_products",
+                                           "if all([s == shapes[0] for s in shapes]) and uniform_m:", "if all([s == shapes[0] for s in shapes]) or uniform_m:"), "C06.dispatch")
     control(ctx, mod, "record the key only on accept",
             lambda s: variants.in_function(
                 variants.in_function(s, "sweetpea/_internal/sampling_strategy/random.py", "RandomGen.__sample",
@@ -162,3 +200,4 @@ def check(ctx):
     ctx.min_instances("C06.exits", 3)
     ctx.min_instances("C06.record", 5)
     ctx.min_instances("C06.ranges", 9)
+    ctx.min_instances("C06.dispatch", 7)
